@@ -160,7 +160,9 @@ Greet(verb, arg, nsfail) ==
 -----------------------------------------------------------------------------
 (* MAIL *)
 
-MailVariants == {"ok", "rej", "nofrom", "badpath", "unkparam", "badsize", "sizeok",
+\* ("rej": the backend returns an ordinary error; "rej5": an SMTPError 550 whose
+\* enhanced code is not set - sent as X.0.0 of the reply's class)
+MailVariants == {"ok", "rej", "rej5", "nofrom", "badpath", "unkparam", "badsize", "sizeok",
                  "sizeover", "binarymime", "ret"}
 
 Mail(v) ==
@@ -182,6 +184,7 @@ Mail(v) ==
          [] v = "ret" /\ ~cfg.dsn ->
                               st' = s1 /\ Emit(cmd, <<R(504, <<5, 5, 4>>)>>, <<>>)
          [] v = "rej" ->      st' = s1 /\ Emit(cmd, <<R(451, <<4, 0, 0>>)>>, <<CB("Mail", st.sess)>>)
+         [] v = "rej5" ->     st' = s1 /\ Emit(cmd, <<R(550, <<5, 0, 0>>)>>, <<CB("Mail", st.sess)>>)
          [] OTHER ->
               \* accepted.  A MAIL inside an open transaction is not refused by
               \* the code: Mail is called again, recipients are kept (not judged).
@@ -191,7 +194,7 @@ Mail(v) ==
 -----------------------------------------------------------------------------
 (* RCPT *)
 
-RcptVariants == {"ok", "rej", "noto", "badpath", "unkparam", "notify"}
+RcptVariants == {"ok", "rej", "rej5", "noto", "badpath", "unkparam", "notify"}
 
 Rcpt(v) ==
   LET cmd == Cmd("RCPT", v) IN
@@ -204,6 +207,7 @@ Rcpt(v) ==
      ELSE IF v = "unkparam" THEN Just(cmd, R(500, <<5, 5, 4>>))
      ELSE IF v = "notify" /\ ~cfg.dsn THEN Just(cmd, R(504, <<5, 5, 4>>))
      ELSE IF v = "rej" THEN st' = st /\ Emit(cmd, <<R(451, <<4, 0, 0>>)>>, <<CB("Rcpt", st.sess)>>)
+     ELSE IF v = "rej5" THEN st' = st /\ Emit(cmd, <<R(550, <<5, 0, 0>>)>>, <<CB("Rcpt", st.sess)>>)
      ELSE /\ st.nrcpt < RcptBound
           /\ st' = [st EXCEPT !.nrcpt = @ + 1]
           /\ Emit(cmd, <<R(250, <<2, 0, 0>>)>>, <<CB("Rcpt", st.sess)>>)
